@@ -10,7 +10,7 @@ ROOT = os.path.dirname(os.path.dirname(os.path.abspath(__file__)))
 def main():
     sid = sys.argv[1]; d = os.path.join(ROOT, 'seeded', sid)
     meta = json.load(open(os.path.join(d, 'meta.json')))
-    props = sys.argv[2:] or [meta['property'].split(':')[0].split()[0]]
+    props = sys.argv[2:] or [meta.get('property_id') or meta['property'].split(':')[0].split()[0]]
     scratch = tempfile.mkdtemp(prefix=f'seedeval_{sid}_', dir='/var/tmp')
     try:
         for sub in ('src', 'include', 'tests', 'Makefile'):
